@@ -2,6 +2,7 @@ import GrVerif.Model.FaceLoadAll
 import GrVerif.Proofs.FaceLoad
 import GrVerif.Proofs.GlyphGfx
 import GrVerif.Proofs.CmapFind
+import GrVerif.Proofs.CmapCache
 set_option linter.unusedVariables false
 set_option linter.unusedSimpArgs false
 namespace GrVerif.Loader
@@ -260,17 +261,22 @@ theorem cmapUsable_total (cmap : Option (List Nat)) (cacheCmap : Bool) : ∃ r, 
   | none => exact ⟨_, rfl⟩
   | some b =>
     simp only []
+    have hb := (hr b rfl).1
     cases cacheCmap with
-    | true => exact ⟨_, rfl⟩
+    | true =>
+      simp only [if_true]
+      obtain ⟨m, em⟩ := Cmap.buildCached_total (toBuf b) (by unfold toBuf; simpa using hb)
+      rw [em]
+      exact ⟨_, rfl⟩
     | false =>
       simp only [Bool.false_eq_true, if_false]
-      have hb := (hr b rfl).1
       obtain ⟨st, es⟩ := Cmap.bmpSubtable_total (toBuf b) (by unfold toBuf; simpa using hb)
       rw [es]
       exact ⟨_, rfl⟩
 
 /-- **`gr_make_face*` over every table but `name`** (which the loader does not read unless asked to preload it): as `loadFaceAll_total`, with
-the cmap's `Face::Table` test and – for a face without `gr_face_cacheCmap` – the search for a Unicode BMP subtable inside the model -/
+the cmap's `Face::Table` test and – for a face without `gr_face_cacheCmap` – the search for a Unicode BMP subtable, or – for a face with it –
+the construction of the whole code-point cache inside the model -/
 theorem loadFaceCmap_total (t : AllTables) (cmap : Option (List Nat)) (preload cacheCmap : Bool)
     (hmb : ∀ b, t.maxp = some b → ∀ x ∈ b, x < 256) (hb : ∀ x ∈ t.gloc, x < 256) (hs : t.gloc.length < 18446744073709551616) :
     ∃ r, loadFaceCmap t cmap preload cacheCmap = .ok r := by
